@@ -33,15 +33,8 @@ func RenameOutput(callable syntax.Callable,
 					oldParam, newParam, pipe, edits)
 			}
 		}
-		// Fix up top-level call if needed.
-		if ast.Call != nil && ast.Call.DecId == callable.GetId() {
-			edits = append(edits, renameCallParamEdit{
-				File:     syntax.DefiningFile(ast.Call),
-				Id:       ast.Call.Id,
-				OldParam: oldParam,
-				NewParam: newParam,
-			})
-		}
+		// The top-level call binds only inputs, so it needs no fix-up, even
+		// if one of the inputs has the same name as the output.
 	}
 	if len(edits) == 0 {
 		return nil
